@@ -68,7 +68,7 @@ type HistInput struct {
 	EvFlags  uint16   `json:"ev_flags,omitempty"`
 	RowFlags uint16   `json:"row_flags,omitempty"`
 	Stamps   []uint32 `json:"stamps,omitempty"`
-	Global *ref.Cfg        `json:"global,omitempty"`
+	Global   *ref.Cfg `json:"global,omitempty"`
 }
 
 // UnclassifiedStatements are statements a server logs as query events whose
